@@ -248,7 +248,17 @@ class C07(core.Check):
             pr = subprocess.run(cmd, input=src.encode('utf-8', 'replace'), capture_output=True, timeout=120,
                                 cwd=self.tmp, env=env.child_env())
         except subprocess.TimeoutExpired:
-            return dict(ok=False, nt=True, key='cli:timeout', cnt=cnt, obs=None, detail={'cmd': cmd})
+            # the same input through the library call, under the step clock: is it one of the stated exclusions
+            # (self-calling definition, expansion size)?
+            o = {k: v for k, v in opts.items() if k in ('lang', 'pack', 'dcls', 'defs', 'nosp', 'repl', 'unkn', 'seqs', 'extr')}
+            kind, r, errtxt, steps, tb, limit = guarded_run(self.clock, self.cap, src, o, bool(case.get('ml')))
+            if kind is not None:
+                why = exclusion(self.cap.last, src + (o.get('defs') or ''), errtxt, kind)
+                if why:
+                    cnt['excluded:' + why] = 1
+                    return dict(ok=True, nt=False, key=None, cnt=cnt, obs=None)
+            return dict(ok=False, nt=True, key='cli:timeout', cnt=cnt, obs=None,
+                        detail={'cmd': cmd, 'src': src, 'library_call': kind})
         err = pr.stderr.decode('utf-8', 'replace')
         if pr.returncode != 0 or 'Traceback' in err:
             if 'is not an EquEnv' in err:
